@@ -563,7 +563,7 @@ class ScriptBackend(TrialBackend):
             for tid in trial_ids:
                 self._advance(tid)
                 t = self.truth[tid]
-                out.append(TrialResult(trial_id=tid, config=t["config"], creation_time=EPOCH0,
+                out.append(TrialResult(trial_id=tid, config=_registered_config(self, tid), creation_time=EPOCH0,
                                        metrics=list(t["metrics"]), status=t["status"]))
             return out
         # param `shuffle_poll` (C20 early-removal cases): the new results of the polled trials arrive in a random interleaving
@@ -581,7 +581,7 @@ class ScriptBackend(TrialBackend):
                 pos[tid] += 1
         for tid in trial_ids:
             t = self.truth[tid]
-            out.append(TrialResult(trial_id=tid, config=t["config"], creation_time=EPOCH0,
+            out.append(TrialResult(trial_id=tid, config=_registered_config(self, tid), creation_time=EPOCH0,
                                    metrics=list(t["metrics"]), status=t["status"]))
         return out
 
@@ -602,6 +602,13 @@ class ScriptBackend(TrialBackend):
 
 # ---------------------------------------------------------------------------------
 # schedulers
+
+
+def _registered_config(be, tid):
+    """the configuration the backend's base class has on record for the trial (what LocalBackend and the simulator hand
+    out with their results: `self._trial_dict[trial_id].add_results(...)`), not the one the job was scheduled with"""
+    td = be._trial_dict.get(tid)
+    return be.truth[tid]["config"] if td is None else td.config
 
 
 class ScriptScheduler(TrialScheduler):
@@ -780,7 +787,7 @@ class ReplayBackend(ScriptBackend):
                                                        ST_WORKER_TIMESTAMP: int(Fraction(kv[4]))})
             else:
                 self.script_exhausted = True
-        return [TrialResult(trial_id=tid, config=self.truth[tid]["config"], creation_time=EPOCH0,
+        return [TrialResult(trial_id=tid, config=_registered_config(self, tid), creation_time=EPOCH0,
                             metrics=list(self.truth[tid]["metrics"]), status=self.truth[tid]["status"]) for tid in trial_ids]
 
     def busy_trial_ids(self):
@@ -1962,6 +1969,10 @@ def monitor_c20_loop(t):
             if a == {"ret": True}:
                 deleted.add(tid)
                 deleted_at[tid] = i
+        if c[:2] == ["be", "resume"] and c[2] in deleted and a != {"ret": True}:
+            # (the backend refuses to resume a trial it has stopped: the request itself is the violation)
+            out.append(F("c20:resume-without-checkpoint", f"resume_trial({c[2]}) was requested after the checkpoint of the trial had been "
+                                                          f"deleted (the backend answered {a})", {"call": i}))
         if c[:2] in (["be", "start"], ["be", "resume"]) and a == {"ret": True}:
             if c[:2] == ["be", "resume"] and c[2] in deleted:
                 out.append(F("c20:resume-without-checkpoint", f"trial {c[2]} resumed after its checkpoint was deleted", {"call": i}))
